@@ -1,6 +1,8 @@
 (* C01 correspondence: digests of real builds judged by the validator, and
    the canonicaliser / schedule models compared with the real functions. *)
 From Apko Require Export Base.Prelude Base.C01Lib Model.Repro Spec.ReproSpec Generated.C01Calls.
+From Apko Require Export Model.BuildSteps Generated.C10Steps Model.Repro2.
+From Apko Require Model.Resolver.
 Open Scope string_scope. Open Scope list_scope.
 
 (* ---- the build matrix ------------------------------------------------------
@@ -13,7 +15,11 @@ Open Scope string_scope. Open Scope list_scope.
 Record build_case := {
   b_cfg : string; b_dim : string; b_group : string;
   b_ref : artifacts; b_got : artifacts; b_failed : bool;
-  b_members : list string; b_images : list timg; b_manifests : list string
+  b_members : list string; b_images : list timg; b_manifests : list string;
+  (* the dates the build shows: b_date0 = the configured date (SOURCE_DATE_EPOCH of the cell, 0 when unset: the
+     default of --build-date), b_arch_created = org.opencontainers.image.created of every image manifest in index
+     order, b_index_created = the same annotation of the index ([] = this output mode shows no index) *)
+  b_date0 : Z; b_arch_created : list Z; b_index_created : list Z
 }.
 
 Definition str_in (x : string) (l : list string) : bool := existsb (String.eqb x) l.
@@ -30,6 +36,16 @@ Definition check_build (c : build_case) : list string :=
      | ms => tag_if (negb (existsb (fun ord => list_eqb String.eqb (tar_members ord (b_manifests c)) ms) (perms (b_images c))))
                "mismatch:tarball-member-order-is-not-a-map-order"
      end) ++
+    (* the date of the index: the generated fold of buildImageComponents over the per-architecture dates
+       (any completion order gives the model's value, see c01_bde_multiarch), and it is the latest of them *)
+    (match b_index_created c with
+     | [] => []
+     | d :: _ =>
+         tag_if (negb (match multi_arch_date c01_multiarch_fold (b_date0 c) (b_arch_created c) with
+                       | Some m => Z.eqb m d | None => false end)) "mismatch:index-date-differs-from-model" ++
+         tag_if (negb (forallb (fun a => Z.leb a d) (b_arch_created c) &&
+                       existsb (Z.eqb d) (b_date0 c :: b_arch_created c))) "viol:index-date-is-not-the-latest-architecture-date"
+     end) ++
     match differing (b_ref c) (b_got c) with
     | [] => []
     | r :: rest =>
@@ -39,35 +55,37 @@ Definition check_build (c : build_case) : list string :=
     end.
 
 (* ---- install_if (was finding C01-F1, fixed by c03e0c0) -------------------------
-   Universe of the harness: top depends on the leaf packages f_deps (in that
-   order); f_pkgs are the install_if packages in index order (name, install_if
-   entries — leaf names or names of other install_if packages: several
-   triggers, chains).  f_orders: the distinct install orders observed (resolver
-   in process, or lib/apk/db/installed of repeated identical CLI builds);
-   f_digests: image manifest digest of every CLI build.  Every observed order
-   must EQUAL the model's one order, and repeated runs must agree. *)
-Record installif_case := { f_kind : string; f_pkgs : list iipkg; f_deps : list string;
+   One model: Model/Resolver.v (versioned install_if entries included).  f_univ is
+   the universe of the harness in index order, f_world the requested packages.
+   f_orders: the distinct install orders observed (resolver in process, or
+   lib/apk/db/installed of repeated identical CLI builds); f_digests: image manifest
+   digest of every CLI build.  Every observed order must EQUAL the model's one
+   order, and repeated runs must agree. *)
+Record installif_case := { f_kind : string; f_univ : list Resolver.pkg; f_world : list string;
                            f_orders : list (list string); f_digests : list string }.
-Definition IP := Build_iipkg.
+(* name version origin dependencies install_if *)
+Definition RP (n v o : string) (deps iif : list string) : Resolver.pkg :=
+  Resolver.Build_pkg n v o deps [] iif 0%N "" "".
 Definition digit (i : nat) : string :=
   match i with 0 => "0" | 1 => "1" | 2 => "2" | 3 => "3" | 4 => "4" | 5 => "5" | 6 => "6" | 7 => "7" | 8 => "8" | _ => "9" end.
 
-(* `apko build` resolves twice: the world [top] is locked first and the build
-   context resolves the LOCKED world — every member as name=version, sorted
-   (sort.Strings; for the harness's names that is the order of the names).
-   GetPackagesWithDependencies then takes the requests in that order: a request
-   for a leaf or an install_if package contributes itself (its own install_if
-   loop runs over an empty dependency list), the request for top contributes
-   what is not yet tracked of [l] = its dependency list after the install_if
-   loop, in that order, then top. *)
-Definition cli_order (l : list string) : list string :=
-  fold_left (fun acc w => if String.eqb w "top" then acc ++ List.filter (fun x => negb (mem x acc)) l ++ ["top"]
-                          else if mem w acc then acc else acc ++ [w]) (ssort (l ++ ["top"])) [].
+Definition pid_name (U : list Resolver.pkg) (i : nat) : string := Resolver.p_name (nth i U Resolver.dummy_pkg).
+Definition pid_locked (U : list Resolver.pkg) (i : nat) : string :=
+  (Resolver.p_name (nth i U Resolver.dummy_pkg) ++ "=" ++ Resolver.p_version (nth i U Resolver.dummy_pkg))%string.
 
+(* `apko build` resolves twice: the configured world is locked first and the build
+   context resolves the LOCKED world — every member as name=version, sorted
+   (SetWorld's sort.Strings) — with the same resolver. *)
 Definition model_order (c : installif_case) : option (list string) :=
-  match install_if_pass (ii_build (f_pkgs c)) (f_deps c) with
-  | Some l => Some (if String.eqb (f_kind c) "cli-build" then cli_order l else l ++ ["top"])
-  | None => None
+  match Resolver.resolve (f_univ c) (f_world c) [] with
+  | Ok l =>
+      if String.eqb (f_kind c) "cli-build" then
+        match Resolver.resolve (f_univ c) (ssort (List.map (pid_locked (f_univ c)) l)) [] with
+        | Ok l2 => Some (List.map (pid_name (f_univ c)) l2)
+        | _ => None
+        end
+      else Some (List.map (pid_name (f_univ c)) l)
+  | _ => None
   end.
 
 Fixpoint all_same {A} (eqb : A -> A -> bool) (l : list A) : bool :=
@@ -80,7 +98,7 @@ Definition check_installif (c : installif_case) : list string :=
   let orders_same := all_same (list_eqb String.eqb) (f_orders c) in
   let digests_same := all_same String.eqb (f_digests c) in
   (match model_order c with
-   | None => ["mismatch:install-if-model-out-of-fuel"]
+   | None => ["mismatch:install-if-model-does-not-resolve"]
    | Some mo =>
        tag_if (match f_orders c with [] => true | _ => false end) "mismatch:harness-shape/no-install-order-observed" ++
        (* reported only when the runs agree: a difference between the runs is the violation below *)
@@ -102,7 +120,10 @@ Inductive canon_case :=
 | KReadDir (created o_names : list string)
 | KGroups (by_origin : list (N * list string)) (o_groups : list (N * string * list string))
 | KBde (flag : Z) (env : option (option Z)) (times : list Z) (o_bde : Z)
-| KSched (n : nat) (bad : option nat) (completion : list nat) (o_ok : bool) (o_installed : list string).
+| KSched (n : nat) (bad : option nat) (completion : list nat) (o_ok : bool) (o_installed : list string)
+(* InstallPackages under GOMAXPROCS = jobs: the packages are released in [completion] order; o_starts = for every
+   request that reached the server, (package index, responses completed before it arrived) *)
+| KLimit (jobs n : nat) (completion : list nat) (o_starts : list (nat * nat)) (o_ok : bool) (o_installed : list string).
 
 Definition slash : ascii := ascii_of_nat 47.
 Fixpoint base_aux (s acc : string) : string :=
@@ -138,7 +159,8 @@ Definition check_canon (c : canon_case) : list string :=
       tag_if (negb (list_eqb (fun a b => N.eqb (fst (fst a)) (fst (fst b)) && String.eqb (snd (fst a)) (snd (fst b)) && strs_eqb (snd a) (snd b)) expect o_groups))
         "mismatch:layer-groups"
   | KBde flag env times o =>
-      tag_if (negb (Z.eqb (build_date_epoch flag env times) o)) "mismatch:build-date-epoch"
+      (* the generated fold of GetBuildDateEpoch *)
+      tag_if (negb (match build_date c01_bde_fold flag env times with Some m => Z.eqb m o | None => false end)) "mismatch:build-date-epoch"
   | KSched n bad completion o_ok o_installed =>
       let names := List.map (fun i => ("p" ++ digit i)%string) (seq 0 n) in
       let expand := fun p : string => match bad with Some b => if String.eqb p ("p" ++ digit b)%string then None else Some p | None => Some p end in
@@ -148,4 +170,43 @@ Definition check_canon (c : canon_case) : list string :=
                    (if o_ok then tag_if (negb (strs_eqb st o_installed)) "mismatch:installed-order" else [])
       | None => tag_if o_ok "mismatch:model-fails-impl-installs"
       end
+  | KLimit jobs n completion o_starts o_ok o_installed =>
+      let names := List.map (fun i => ("p" ++ digit i)%string) (seq 0 n) in
+      let install := fun (st : list string) (_ : nat) (p e : string) => Some (st ++ [e]) in
+      (match outcome string string (list string) (fun p => Some p) install names [] (List.map Done completion) with
+       | Some st => tag_if (negb o_ok) "mismatch:model-installs-impl-fails" ++
+                    (if o_ok then tag_if (negb (strs_eqb st o_installed)) "mismatch:installed-order" else [])
+       | None => tag_if o_ok "mismatch:model-fails-impl-installs"
+       end) ++
+      (* c01_install_limit_removes (start): expansion i is started only while fewer than the limit run, the
+         installer (alive: no expansion fails here) being one of them: i + 1 < completed + limit *)
+      match install_limit c01_install_limit_extra jobs with
+      | None => []
+      | Some L => tag_if (negb (forallb (fun ip => Nat.ltb (fst ip + 1) (snd ip + L)) o_starts)) "mismatch:expansion-started-beyond-the-limit-of-the-group"
+      end
   end.
+
+(* ---- an image on a base image (baseimage stage) ------------------------------------
+   bi_cfg: the four repository lists of the configuration; bi_root: the directory
+   below which the runs keep their temp directories; per run: its temp directory,
+   the lines of etc/apk/repositories after build.New (initializeApk), the lines of
+   that file inside the layer, the layer digest. *)
+Record base_run := { br_tmp : string; br_build_time : list string; br_final : list string; br_digest : string }.
+Record base_case := { bi_arch : string; bi_cfg : repo_cfg; bi_root : string; bi_runs : list base_run }.
+
+Definition check_base (c : base_case) : list string :=
+  let finals := List.map br_final (bi_runs c) in
+  flat_map (fun r =>
+    (* the model of initializeApk, given the path it appended (the last line), which lies below the temp directory *)
+    let p := last (br_build_time r) "" in
+    tag_if (negb (match init_repos c01_init_repo_sources c01_init_repo_appends (bi_cfg c) (Some p) with
+                  | Some l => strs_eqb l (br_build_time r) | None => false end)) "mismatch:base-image-build-time-repositories" ++
+    tag_if (negb (is_prefix (br_tmp r) p)) "mismatch:base-image-index-is-not-below-the-temp-directory" ++
+    (* the model of the build steps (generated lists of C10) from that file *)
+    tag_if (negb (match final_repos c10_steps c10_setrepos_sources (single_layer_cond c10_steps) (bi_cfg c) (br_build_time r) with
+                  | Some (Ok l) => strs_eqb l (br_final r) | _ => false end)) "mismatch:base-image-final-repositories" ++
+    (* the validator: nothing of the temp directory in the image *)
+    tag_if (existsb (is_infix (bi_root c)) (br_final r)) "viol:digest-differs/base-image-temp-path-in-repositories") (bi_runs c) ++
+  tag_if (negb (all_same strs_eqb finals)) "viol:digest-differs/base-image-temp-path-in-repositories" ++
+  tag_if (all_same strs_eqb finals && negb (all_same String.eqb (List.map br_digest (bi_runs c)))) "viol:digest-differs/base-image-tempdir".
+
